@@ -1,4 +1,5 @@
 import IV.Lemmas.DrOrder
+import IV.Lemmas.Subgraphs
 import IV.Props.C01
 /-!
 C04 — evaluation results do not depend on scheduling.
@@ -280,6 +281,36 @@ theorem run_modes_agree (seed : Inst) (o₁ o₂ o : List Comp)
   show c ∈ List.filter inG (o₁ ++ o₂) ↔ c ∈ List.filter inG o
   rw [((Interleave.append o₁ o₂).filter inG).mem, (hm.filter inG).mem]
 
+/-! ### splitting into sub-graphs neither loses nor duplicates a component -/
+
+/-- `get_subgraphs`: every key of the graph lies in exactly one sub-graph, every member of a sub-graph
+is a key of the graph, and each sub-graph is closed under "dependency or dependent inside the graph"
+(so no evaluable dependency crosses sub-graphs — the `Independent` hypothesis of `merge_valid`).
+Hypothesis: dependents is the inverse of dependencies on the graph (registration invariant, checked
+on the live registry by the harness on every run). -/
+theorem subgraphs_partition (r : Rel) (prio : Comp → Nat) (G : List Comp) (hs : Symmetric r G) :
+    (∀ k ∈ G, ∃ s ∈ getSubgraphs r prio G, k ∈ s) ∧
+    (getSubgraphs r prio G).Pairwise (fun a b => ∀ x ∈ a, x ∉ b) ∧
+    (∀ s ∈ getSubgraphs r prio G, (∀ x ∈ s, x ∈ G) ∧ Closed r G s) := by
+  unfold getSubgraphs
+  obtain ⟨h1, h2, h3⟩ := subgraphs_spec r G hs G.length (sortPrio prio G)
+    (by rw [sortPrio_length]; exact Nat.le_refl _) (fun k hk => (sortPrio_mem prio G k).mp hk)
+  refine ⟨fun k hk => h1 k ((sortPrio_mem prio G k).mpr hk), h2, ?_⟩
+  intro s hs'
+  obtain ⟨a, b, _⟩ := h3 s hs'
+  exact ⟨b, a⟩
+
+/-- consequence: a key is in no two different sub-graphs (positions i < j) -/
+theorem subgraphs_no_duplicate (r : Rel) (prio : Comp → Nat) (G : List Comp) (hs : Symmetric r G)
+    (i j : Nat) (hij : i < j) (a b : List Comp)
+    (ha : (getSubgraphs r prio G)[i]? = some a) (hb : (getSubgraphs r prio G)[j]? = some b) (x : Comp) (hx : x ∈ a) :
+    x ∉ b := by
+  have hp := (subgraphs_partition r prio G hs).2.1
+  rw [List.pairwise_iff_getElem] at hp
+  obtain ⟨hi, rfl⟩ := List.getElem?_eq_some_iff.mp ha
+  obtain ⟨hj, rfl⟩ := List.getElem?_eq_some_iff.mp hb
+  exact hp i j hi hj hij x hx
+
 /-! ### non-vacuity -/
 
 private def exW : World where
@@ -296,5 +327,9 @@ private def exW : World where
 example : ((runComponents exW (fun _ => true) true [0, 3, 1, 2] (Broker.seeded fun _ => none)).inst 2) =
           ((runComponents exW (fun _ => true) true [3, 0, 1, 2] (Broker.seeded fun _ => none)).inst 2) := by decide
 example : Interleave [0, 1] [3] [0, 3, 1] := .left 0 (.right 3 (.left 1 .nil))
+-- 0 <- 1, 2 <- 3 <- 4, 5 alone; priority puts 3's component first
+example : getSubgraphs ⟨fun c => if c = 1 then [0] else if c = 3 then [2] else if c = 4 then [3] else [],
+                        fun c => if c = 0 then [1] else if c = 2 then [3] else if c = 3 then [4] else []⟩
+    (fun c => if c = 3 then 5 else 0) [0, 1, 2, 3, 4, 5] = [[4, 2, 3], [1, 0], [5]] := by decide
 
 end IV.Dr
